@@ -10,4 +10,6 @@ def check(ctx, rep):
     _eff.eff_1(ctx, rep, only=[('parso/grammar.py', 'Grammar.parse')], minimum=20)
     from ..rules import par as _par14
     _par14.par_14(ctx, rep)     # INDENT / DEDENT bookkeeping sees every token once (not the tokens recovery re-feeds)
+    from ..rules import tok as _tok5
+    _tok5.tok_5(ctx, rep)       # the zero-width tokens of the epilogue stand at the end of the input: that is where a strict parse reports them
     rep.note('Not decided: equality of the two result trees as values.')
